@@ -364,13 +364,15 @@ SyncResult(C, fs0, fs1, par, now, opts, srcs) ==
         bm == AllocatedMax(M)
         small == ~opts.force_full /\ \E l \in Levels : Len(par[l]) < UsedMax(M)
         par1 == Resize(par, bm)
-        r == SyncAll(M, fs1, par1, bm, now, opts.force_full, [l \in Levels |-> Len(par[l])])
+        \* a SIGINT/SIGTERM stops the run gracefully after the stripe being processed (opts.stop = position + 1, 0 = none)
+        bmp == IF "stop" \in DOMAIN opts /\ opts.stop > 0 /\ opts.stop < bm THEN opts.stop ELSE bm
+        r == SyncAll(M, fs1, par1, bmp, now, opts.force_full, [l \in Levels |-> Len(par[l])])
         \* the state is saved before the stripes are processed when the scan or the resize changed something,
         \* and again at the end unless --test-kill-after-sync
         scanchg == \E d \in D : Gone(L0, fs0, d) # {} \/ Fresh(L0, fs0, d) # {} \/ Realloc(L0, fs0, d) # {}
         resized == \E l \in Levels : Len(par[l]) # bm
         presave == IF scanchg \/ resized THEN Normalize(M) ELSE C
-        en == {p \in 0..(bm - 1) : StripeEnabled(M, p, opts.force_full)}
+        en == {p \in 0..(bmp - 1) : StripeEnabled(M, p, opts.force_full)}
     IN IF ~SrcsOK(L0, fs0, srcs, opts.nocopy) THEN [C |-> C, par |-> par, out |-> [exit |-> "bad-copy-source", err |-> 0, silent |-> 0]]
        ELSE IF refused \/ small THEN [C |-> C, par |-> par, out |-> [exit |-> "refused", err |-> 0, silent |-> 0]]
        ELSE [C |-> IF opts.kill_after THEN presave
